@@ -53,6 +53,9 @@ func codecPairs(p *Prog) []codecPair {
 		var w *types.Named
 		for i := 0; i < nt.NumMethods(); i++ {
 			m := nt.Method(i)
+			if p.isDead(p.SSA.FuncValue(m)) {
+				continue // a helper the normalisation folded into its callers
+			}
 			sig := m.Type().(*types.Signature)
 			if sig.Params().Len() == 0 && sig.Results().Len() == 2 && isErrorType(sig.Results().At(1).Type()) {
 				if ww := isWire(sig.Results().At(0).Type()); ww != nil {
